@@ -15,7 +15,7 @@ EXPLANATION = ("Bounded symbolic execution (CrossHair/z3) of the real coil devic
                "that refused requests produce no command; scenario 'timed' interleaves further operations at symbolic instants with a software-timed pulse "
                "and with max_hold_duration and checks the promised switch-off.")
 NONTRIVIAL_RULE = "a command reached the platform driver and was checked against the envelope, or the request was refused with no command"
-BOUNDS = {"entry_points": ["pulse", "enable", "timed_enable", "event_pulse", "event_enable", "coil_player pulse/enable", "hw rule pulse_on_hit", "hw rule pulse+enable"],
+BOUNDS = {"entry_points": ["pulse", "enable", "timed_enable", "event_pulse", "event_enable", "coil_player pulse/enable", "hw rule pulse_on_hit", "hw rule pulse+enable", "light on a driver (DriverLight)", "flipper software flip"],
           "pulse_ms": "[-4,40] (and [250,262] around the platform max_pulse) int or None", "powers": "[-1,2] on the grid of quarters or None", "max_pulse_ms": "None or [1,30]", "limits": "[0,1] on the grid of quarters or None",
           "max_hold_duration_s": "None or [1,10] real", "timed scenario": "<=2 further operations at symbolic instants"}
 ASSUMPTIONS = ["virtual platform boundary: serial platforms' own encoders are not executed", "platform max_pulse is 255 (virtual platform)",
@@ -142,6 +142,14 @@ def body_request(S, t, part):
         elif entry in ("player_pulse", "player_enable"):
             m.coil_player.play({c: dict(action="pulse" if entry == "player_pulse" else "enable", pulse_ms=pulse_ms, pulse_power=pulse_power,
                                         hold_power=hold_power, max_wait_ms=None)}, "verif", None)
+        elif entry == "driver_light":
+            # a light on this coil: brightness becomes the hold power of an enable command
+            b = S.int("brightness", 0, 255)
+            m.lights["l_drv"].color([b, b, b])
+            t.advance_time_and_run(0.05)
+        elif entry == "flipper_sw_flip":
+            m.flippers["f_main"].enable()
+            m.flippers["f_main"].sw_flip()
         elif entry == "rule_pulse":
             m.platform_controller.set_pulse_on_hit_rule(SwitchRuleSettings(m.switches["s_hit"], False, False), DriverRuleSettings(c, False),
                                                         PulseRuleSettings(pulse_power, pulse_ms))
@@ -151,7 +159,10 @@ def body_request(S, t, part):
                 PulseRuleSettings(pulse_power, pulse_ms), HoldRuleSettings(hold_power))
     except Exception as e:  # pylint: disable=broad-except
         raised = e
-    t.advance_time_and_run(0.001)
+    try:
+        t.advance_time_and_run(0.001)
+    except Exception as e:  # pylint: disable=broad-except
+        raised = raised or e
     cmds = list(mon.cmds)
     for r in rules:
         cmds.append(("timed_enable" if r.hold_settings else "pulse", 0, r.pulse_settings.power, r.pulse_settings.duration,
@@ -240,6 +251,7 @@ def body_timed(S, t, part):
 
 def scenarios(tier):
     entries = ["pulse", "enable", "timed_enable", "event_pulse", "event_enable", "player_pulse", "player_enable", "rule_pulse", "rule_hold"]
+    extra = ["driver_light", "flipper_sw_flip"]
     allset = dict(max_pulse_ms_set=True, max_hold_power_set=True, default_hold_power_set=True, default_pulse_power_set=True,
                   pulse_ms_given=True, pulse_power_set=True, hold_power_set=True)
     sparse = dict(max_pulse_ms_set=False, max_hold_power_set=False, default_hold_power_set=True, default_pulse_power_set=False,
@@ -247,6 +259,7 @@ def scenarios(tier):
     if tier == "quick":
         parts = [dict(entry=e, flags=f) for e in entries for f in (allset, sparse)]
         parts += [dict(entry="pulse", flags=dict(sparse, allow_enable=False), big=True)]
+        parts += [dict(entry=e, flags=dict(allset, pulse_ms_given=False, pulse_power_set=False, hold_power_set=False)) for e in extra]
     else:
         parts = []
         for e in entries:
@@ -254,6 +267,8 @@ def scenarios(tier):
                 parts.append(dict(entry=e, flags=dict(max_pulse_ms_set=bool(k & 1), max_hold_power_set=bool(k & 2), default_hold_power_set=bool(k & 4),
                                                        default_pulse_power_set=bool(k & 8)), wide=True))
         parts += [dict(entry=e, flags=dict(sparse), big=True) for e in ("pulse", "event_pulse", "player_pulse")]
+        parts += [dict(entry=e, flags=dict(max_pulse_ms_set=bool(k & 1), max_hold_power_set=bool(k & 2), default_hold_power_set=bool(k & 4), pulse_ms_given=False,
+                                           pulse_power_set=False, hold_power_set=False), wide=True) for e in extra for k in range(8)]
     n = 1 if tier == "quick" else 2
     timed = [dict(mode="sw_pulse", n=n), dict(mode="hold", n=n)]
     pb = 80 if tier == "quick" else 300
